@@ -119,7 +119,7 @@ func gen(t *rapid.T) algebraCase {
 	n := rapid.IntRange(1, 6).Draw(t, "nops")
 	cloned := false
 	for i := 0; i < n; i++ {
-		pool := []string{"revcomp", "revcomp", "reverse", "clone", "set", "row-revcomp", "append", "delete", "row-setoffset"}
+		pool := []string{"revcomp", "revcomp", "reverse", "clone", "set", "row-revcomp", "row-reverse", "append", "delete", "row-setoffset"}
 		o := op{Kind: rapid.SampledFrom(pool).Draw(t, "op"), Row: rapid.IntRange(0, 6).Draw(t, "row"), Pos: rapid.IntRange(0, 60).Draw(t, "pos"),
 			Letter: rapid.IntRange(0, 40).Draw(t, "letter"), Q: rapid.IntRange(0, 93).Draw(t, "q"), Off: rapid.IntRange(-5, 30).Draw(t, "off")}
 		if o.Kind == "clone" {
@@ -248,6 +248,36 @@ func check(c algebraCase) *vlib.Failure {
 			pool := sm.PairedLetters(c.Spec.Alpha)
 			ql := alphabet.QLetter{L: alphabet.Letter(pool[o.Letter%len(pool)]), Q: alphabet.Qphred(o.Q)}
 			obj.Row(r).Set(lo+o.Pos%(hi-lo), ql)
+			resync(obj, mdl)
+		case "row-reverse":
+			// Reverse of one row, twice: the letters of every row are where they were; once: that
+			// row reads backwards (qualities with their letters), the other rows do not move
+			if nrows == 0 || c.Spec.IsLinear() {
+				continue
+			}
+			ri := o.Row % nrows
+			before := obj.Observe()
+			obj.Row(ri).Reverse()
+			once := obj.Observe()
+			obj.Row(ri).Reverse()
+			twice := obj.Observe()
+			for j := range before.Rows {
+				if twice.Rows[j].L != before.Rows[j].L || fmt.Sprint(twice.Rows[j].Q) != fmt.Sprint(before.Rows[j].Q) {
+					return vlib.Failf("row-reverse-twice", "%s: Reverse of row %d twice: row %d reads %q %v, was %q %v", ctx, ri, j, twice.Rows[j].L, twice.Rows[j].Q, before.Rows[j].L, before.Rows[j].Q)
+				}
+				want := before.Rows[j].L
+				if j == ri {
+					b := []byte(want)
+					for x, y := 0, len(b)-1; x < y; x, y = x+1, y-1 {
+						b[x], b[y] = b[y], b[x]
+					}
+					want = string(b)
+				}
+				if once.Rows[j].L != want {
+					return vlib.Failf("row-reverse-letters", "%s: Reverse of row %d: row %d reads %q, want %q", ctx, ri, j, once.Rows[j].L, want)
+				}
+			}
+			obj.Row(ri).Reverse() // net effect: reversed once
 			resync(obj, mdl)
 		case "row-revcomp":
 			if nrows == 0 || c.Spec.IsLinear() {
